@@ -211,3 +211,82 @@ def spelling_groups(seed, n, per=6):
         tail = rng.choice([' == 1', ' exists', '', ' {', '\n', ' <<m>>', ' !empty'])
         groups.append([spell(q, rng, plain=True) + tail] + [spell(q, rng) + tail for _ in range(per)])
     return groups
+
+
+# ------------------------------------------------------------------ the operator grammar (value_cmp)
+OP_HEADER = 'From Coq Require Import String ZArith NArith List.\nFrom GV.Model Require Import Ast.\nFrom GV.Model Require Import OpParse.\nImport ListNotations.\n'
+OP_WORDS = ['in', 'IN', 'In', 'exists', 'EXISTS', 'Exists', 'empty', 'EMPTY', 'Empty', 'is_string', 'IS_STRING', 'is_list', 'IS_LIST', 'is_struct', 'IS_STRUCT',
+            'is_bool', 'IS_BOOL', 'is_int', 'IS_INT', 'is_float', 'IS_FLOAT', 'is_null', 'IS_NULL', 'Is_Null', 'is_map', 'is_str', 'is', 'i', 'keys', 'KEYS', 'not', 'NOT', 'or']
+OP_SYMBOLS = ['==', '!=', '>=', '<=', '>', '<', '<<', '<<m>>', '=', '=>', '=<', '!', '!==', '>>', '<>', '===', '!!=', '<<=', '< <', '> =', '!>', '!<', '~=', ':=', '']
+OP_PREFIXES = ['', 'not ', 'NOT ', 'not\t', 'not  ', 'not \t ', 'not', 'NOT', '!', '! ', 'not\n', 'not\r\n', 'Not ', 'nOT ', '!!', 'not not ', 'not !', '!not ', 'NOT not ', ' ', ' not ', '\tnot ', '#c\nnot ']
+OP_TAILS = ['', ' ', ' x', 'x', '_', '\n', ' 1', '1', '=', '!', ' <<m>>', '<<']
+
+
+def op_corpus():
+    texts = []
+    for p in OP_PREFIXES:
+        for w in OP_WORDS + OP_SYMBOLS:
+            for t in OP_TAILS:
+                texts.append(p + w + t)
+    seen, out = set(), []
+    for t in texts:
+        if t not in seen:
+            seen.add(t); out.append(t)
+    return out
+
+
+def run_ops_corpus(texts, wd, tag='oparse'):
+    """-> list of (text, verdict, impl result); verdict in PCAgree | PCAgreeReject | PCDisagree | crash"""
+    res = impl.run_ops_parallel([{'op': 'pcmp', 'text': t} for t in texts], wd, tag + '.pc')
+    cases, out = [], [None] * len(texts)
+    for i, (t, r) in enumerate(zip(texts, res)):
+        if 'res' not in r:
+            out[i] = (t, 'crash', r)
+            continue
+        rr = r['res']
+        if rr[0] == 'Ok':
+            it = '(ICOk O%s %s %d%%N)' % (rr[1][1], ct.cbool(rr[1][2]), rr[2])
+        else:
+            it = {'Error': 'ICError', 'Failure': 'ICFailure'}.get(rr[0], 'ICOther')
+        cases.append((i, '', 'cmp_obs %s %s' % (ct.cstr(t), it)))
+        out[i] = (t, None, rr)
+    verdicts, errors = model.eval_cases(cases, wd, tag, header=OP_HEADER, per_file=400)
+    if errors:
+        raise ToolingError('model evaluation failed: %r' % (errors[:1],))
+    for i, _, _ in cases:
+        out[i] = (out[i][0], verdicts.get(i, 'NoModelOutput'), out[i][2])
+    return out
+
+
+def check_operators(ctx, tag):
+    """the operator grammar: Model/OpParse.v against parser.rs value_cmp through the hook `pcmp` on the whole enumerated corpus (every
+    keyword in right and wrong case and every symbol, behind every negation spelling and broken negation, with every tail)"""
+    texts = op_corpus()
+    if ctx.tier != 'thorough':
+        texts = [t for i, t in enumerate(texts) if t.split(' ')[0] not in ('Not', 'nOT') or i % 3 == ctx.seed % 3]
+    out = run_ops_corpus(texts, ctx.wd, tag)
+    stats = {}
+    for t, v, r in out:
+        stats[v] = stats.get(v, 0) + 1
+        if v in ('PCAgree', 'PCAgreeReject'):
+            continue
+        ctx.failing('operator text %r: value_cmp answers %s, the model of the operator grammar says otherwise (%s)' % (t[:60], json.dumps(r)[:160], v),
+                    {'class': 'operator-grammar-correspondence', 'text': t, 'impl': r, 'verdict': v}, found=False)
+    # the statement on the implementation alone: the three negations of one keyword operator give one (operator, negated) pair
+    byop = {}
+    for t, v, r in out:
+        if r and isinstance(r, list) and r[0] == 'Ok':
+            byop[t] = (r[1][1], r[1][2], t.encode('utf-8')[r[2]:].decode('utf-8', 'replace'))
+    for w in ['in', 'IN', 'exists', 'EXISTS', 'empty', 'EMPTY', 'is_string', 'IS_STRING', 'is_list', 'IS_LIST', 'is_struct', 'IS_STRUCT', 'is_bool', 'IS_BOOL',
+              'is_int', 'IS_INT', 'is_float', 'IS_FLOAT', 'is_null', 'IS_NULL']:
+        for tail in (' x', ''):
+            plain = byop.get(w + tail)
+            forms = [byop.get(p + w + tail) for p in ('not ', 'NOT ', 'not\t', 'not  ', '!')]
+            if plain is None or plain[1] is not False:
+                ctx.failing('the operator keyword %r is not read as an un-negated operator: %r' % (w, plain), {'class': 'operator-spelling', 'text': w + tail}, found=True)
+            elif any(f is None or f[0] != plain[0] or f[1] is not True or f[2] != plain[2] for f in forms):
+                ctx.failing('negation spellings in front of %r are read differently: %r' % (w, forms), {'class': 'operator-spelling', 'text': w + tail, 'forms': forms}, found=True)
+    ctx.coverage['operator_texts'] = len(texts)
+    ctx.coverage['operator_verdicts'] = stats
+    ctx.coverage['evaluations'] += len(texts)
+    return stats.get('PCAgree', 0)
